@@ -127,6 +127,13 @@ def build_program(asn1c, workdir, modname, config, harness_objs, cflags=SAN_CFLA
         modfile = os.path.join(workdir, modname + ".asn1")
         with open(modfile, "w") as f:
             f.write(run([sys.executable, os.path.join(VERIF, "tools", "gen_module.py"), modname[3:], modname]))
+    if modfile is None and modname == "LDAP":
+        # a real stream protocol over BER: regenerated from the tracked RFC text with the repository's own extractor
+        exd = os.path.join(workdir, "examples-src"); os.makedirs(exd, exist_ok=True)
+        subprocess.run(["perl", os.path.join(REPO, "examples", "crfc2asn1.pl"), os.path.join(REPO, "examples", "rfc4511.txt")], cwd=exd,
+                       stdout=subprocess.DEVNULL, stderr=subprocess.DEVNULL)
+        modfile = os.path.join(exd, "rfc4511-Lightweight-Directory-Access-Protocol-V3.asn1")
+        if not os.path.exists(modfile): raise BuildError("could not regenerate the LDAP module from rfc4511.txt")
     modfile = modfile or os.path.join(VERIF, "corpus", modname + ".asn1")
     ok, out = gen_program(asn1c, [modfile], CONFIGS[config] if cfgflags is None else cfgflags, gendir)
     if not ok:
@@ -156,7 +163,7 @@ def build_programs(workdir, programs, cflags=SAN_CFLAGS, tagsuffix=""):
         try:
             return ("%s-%s" % p, build_program(asn1c, workdir, p[0], p[1], hobjs, cflags))
         except BuildError as e:
-            if p[0].startswith("Gen"):          # C10's territory (not claimed): skip and count
+            if p[0].startswith("Gen") or p[0] == "LDAP":          # C10's territory (not claimed): skip and count
                 SKIPPED.append(("%s-%s" % p, str(e)[-400:]))
                 return ("%s-%s" % p, None)
             raise
